@@ -161,3 +161,19 @@ for t, ca, cb, init in (('%', A, B, 'v% = PEEK(0)'),
                     v=v, a=ca, b=cb, o1=o1, o2=o2) + '\nPRINT "end"',
                   t + t, peeks=1, family='levels')
                 LEVEL_TEMPLATES.append(tid)
+
+# negative operands are written with a unary minus (the parser never
+# produces a negative literal)
+T('neg_dim_range', 'DIM v(-{a} TO {b}) AS INTEGER\nPRINT LBOUND(v)'.format(
+    a=A, b=B), '%%', family='dim')
+T('neg_dim_both', 'DIM v(-{a} TO -{b}) AS LONG\nPRINT UBOUND(v)'.format(
+    a=A, b=B), '%%', family='dim')
+T('neg_asg', 'x% = -{a} - {b}\ny& = -{a} * {b}\nPRINT x%; y&'.format(
+    a=A, b=B), '%%', family='assign')
+T('neg_for_step', 'FOR i% = {a} TO -{b} STEP -{a}\nNEXT\nPRINT i%'.format(
+    a=A, b=B), '%%', family='control')
+T('neg_const', 'CONST k& = -{a} - {b}\nPRINT k&'.format(a=LA, b=LB), '&&',
+  family='const')
+T('neg_locate', 'LOCATE -{a}, {b}'.format(a=A, b=B), '%%', family='device')
+T('neg_idiv_const', 'CONST k% = -{a} \\ -{b}\nPRINT k%'.format(a=A, b=B),
+  '%%', family='const')
